@@ -1309,4 +1309,48 @@ function (the object test decides METHOD / FUNCTION) -/
 theorem delegate_method_null_object_witness :
     (Dlg.ofMethod 7 0 0).invoke 1 = [Call.function 7 1] := by decide
 
+
+/-! ### `check()` of the manager at the timer level: exact admissible regions -/
+
+/-- signed instances (`int32_t`, `int64_t`, `timer_spec<uint32_t, int32_t>`): `check` agrees with
+the integer rule `start + interval ≤ curtime` (fields read as signed values) EXACTLY in the
+region of `stimer_transfer_iff` — it is the same rule -/
+theorem timer_check_signed_transfer_iff {w : Nat} (hw : 0 < w) (t : TimerN w) (c : BitVec w) :
+    (t.check true c = true ↔ t.start.toInt + t.interval.toInt ≤ c.toInt) ↔
+      ((-(2 ^ (w - 1)) ≤ c.toInt - t.start.toInt ∧ c.toInt - t.start.toInt < 2 ^ (w - 1)) ∨
+       (2 ^ (w - 1) ≤ c.toInt - t.start.toInt ∧ t.interval.toInt ≤ c.toInt - t.start.toInt - 2 ^ w) ∨
+       (c.toInt - t.start.toInt < -(2 ^ (w - 1)) ∧ c.toInt - t.start.toInt + 2 ^ w < t.interval.toInt)) := by
+  have e : t.check true c = stimerCheckN ⟨t.start, t.interval, true⟩ c := by
+    simp [TimerN.check, TimerN.ivalue, TimerN.elapsed, stimerCheckN]
+  have h := stimer_transfer_iff hw ⟨t.start, t.interval, true⟩ c
+  simp only [true_and, Bool.true_eq_false, false_or] at h
+  rw [e]
+  exact h
+
+/-- unsigned instance (`uint32_t`): `check` agrees with `start + interval ≤ curtime` on the
+unsigned values EXACTLY when the counter has not wrapped since `start` (`start ≤ curtime`), or it
+has and the interval is larger than the wrapped elapsed time -/
+theorem timer_check_unsigned_transfer_iff {w : Nat} (t : TimerN w) (c : BitVec w) :
+    (t.check false c = true ↔ t.start.toNat + t.interval.toNat ≤ c.toNat) ↔
+      (t.start.toNat ≤ c.toNat ∨ c.toNat + 2 ^ w - t.start.toNat < t.interval.toNat) := by
+  have hs := t.start.isLt
+  have hc := c.isLt
+  have hi := t.interval.isLt
+  have hsub : (c - t.start).toNat = if t.start.toNat ≤ c.toNat then c.toNat - t.start.toNat
+      else c.toNat + 2 ^ w - t.start.toNat := by
+    rw [BitVec.toNat_sub]
+    split
+    · rename_i h
+      have : 2 ^ w - t.start.toNat + c.toNat = (c.toNat - t.start.toNat) + 2 ^ w := by omega
+      rw [this, Nat.add_mod_right, Nat.mod_eq_of_lt (by omega)]
+    · rename_i h
+      rw [Nat.mod_eq_of_lt (by omega)]; omega
+  simp only [TimerN.check, TimerN.ivalue, TimerN.elapsed, Bool.false_eq_true, if_false, decide_eq_true_eq,
+    Int.ofNat_le, hsub]
+  split <;> omega
+
+-- both regions are inhabited on a 32-bit counter: before the wrap, and across it with a long interval
+example : ((4294967290#32).toNat ≤ (4294967295#32).toNat) ∧
+    ((5#32).toNat + 2 ^ 32 - (4294967290#32).toNat < (100#32).toNat) := by decide
+
 end Igris.C16
